@@ -98,6 +98,34 @@ def native_accessor():
     return {'reproduced': bad, 'runs': runs}
 
 
+def native_value_store():
+    """Concretisation: the real ValueStore holding None, 0, 0.0, '' and False (all legitimate values of solved lines)."""
+    from habutax import values
+    vs = values.ValueStore()
+    held = {'f.none': None, 'f.zero': 0, 'f.zerof': 0.0, 'f.empty': '', 'f.false': False, 'f.one': 1}
+    for k, v in held.items():
+        vs[k] = v
+    runs, bad = [], False
+    for k, v in held.items():
+        try:
+            r = vs[k]
+            runs.append({'stored': repr(v), 'read': repr(r)})
+            bad = bad or r is not v
+        except BaseException as ex:
+            runs.append({'stored': repr(v), 'raised': f'{type(ex).__name__}({ex})'})
+            bad = True
+    try:
+        vs['f.absent']
+        runs.append({'absent': 'returned'})
+        bad = True
+    except values.UnmetDependency:
+        pass
+    except BaseException as ex:
+        runs.append({'absent': type(ex).__name__})
+        bad = True
+    return {'reproduced': bad, 'kind': 'value-store', 'runs': runs}
+
+
 def value_store():
     from habutax import values
     V = z3.DeclareSort('SVal')
@@ -134,7 +162,7 @@ def value_store():
         ok, why = False, f'outcomes {kinds}'
     obs.append(Ob(id='SMALL/ValueStore.__getitem__', status=oblig.DISCHARGED if ok else (oblig.UNDECIDED if ok is None else oblig.REFUTED), backend='symexec+z3', function=fid,
                   clause='a present name returns its stored value; an absent name raises UnmetDependency carrying that name; no default', vc=f'{len(paths)} paths', solver_output=why,
-                  witness=None if ok else {'detail': why}, replay=None if ok else {'reproduced': False}, note='C03,C04,C01'))
+                  witness=None if ok else {'detail': why}, replay=None if ok else native_value_store(), note='C03,C04,C01,C06,C13'))
     # __setitem__
     val = fresh('val', V)
     paths = corevc.run_function(values.ValueStore.__setitem__, lambda it: ([mk(it), SV('str', key), SV('obj', val)], {}), spec)
